@@ -72,6 +72,7 @@ type pathState struct {
 	goStmts      int
 	mapOrders    int
 	mapOrdersOff bool
+	grpcConns    map[*value]*grpcConn  // modelled gRPC client connections
 	locks        map[*value]*lockState // tracked mutexes (harness flag "locks")
 	lastModel    map[string]*Term
 	alpha        map[string]string // input name -> character class it is restricted to
